@@ -23,6 +23,7 @@ pub mod cmd_timer;
 pub mod cmd_lcd;
 pub mod cmd_dma;
 pub mod cmd_irq;
+pub mod cmd_machine;
 
 fn main() {
   let args: Vec<String> = std::env::args().collect();
@@ -36,6 +37,7 @@ fn main() {
     "lcd-trace" => cmd_lcd::trace(&args[2..]),
     "dma-trace" => cmd_dma::trace(&args[2..]),
     "irq" => cmd_irq::run(&args[2..]),
+    "machine" => cmd_machine::run(&args[2..]),
     "version" => println!("gbv jit={}", cfg!(feature = "jit")),
     _ => { eprintln!("usage: gbv <command> ..."); std::process::exit(2); }
   }
